@@ -1,7 +1,8 @@
 CONSTANTS
   MaxAttrs = 2
   Names3 = {"class", "ref", "onFoo", "spread", "dir"}
-  TreeDepth = 2
+  WithInput = TRUE
+  TreeDepth = 1
 SPECIFICATION Spec
 INVARIANTS AgreesWithOperator Sound DynNamesDistinct NeverNegative
 PROPERTIES Monotone
